@@ -68,3 +68,25 @@ package tabix
 //@   ensures[C04] @names namesOK(i)
 //@   ensures[C04] @known has(i.nameMap, tRefName(r))
 //@   ensures[C04] @kept forall s string :: old(has(i.nameMap, s)) ==> (has(i.nameMap, s) && i.nameMap[s] == old(i.nameMap[s]))
+
+// Index.Chunks (C04): the reference name is looked up in the name table and the
+// query goes to the BAI-style index under its dense id; the chunks that index
+// returns (see internal.Index.Chunks) are merged by the adjacent strategy, which
+// covers its input: every chunk the linear index does not rule out is covered
+// by a returned chunk.
+//@ func Index.Chunks
+//@   mode int
+//@   props C04
+//@   returns separately
+//@   requires i != nil && i.idx.IsSorted && validIv(beg, end)
+//@   requires has(i.nameMap, ref) ==> (0 <= i.nameMap[ref] && i.nameMap[ref] < len(i.idx.Refs) &&
+//@       binsValid(i.idx.Refs[i.nameMap[ref]].Bins) && binsSorted(i.idx.Refs[i.nameMap[ref]].Bins) && binsSmall(i.idx.Refs[i.nameMap[ref]].Bins) &&
+//@       (forall t in 0..len(i.idx.Refs[i.nameMap[ref]].Intervals) :: okOff(i.idx.Refs[i.nameMap[ref]].Intervals[t])) &&
+//@       (forall a in 0..len(i.idx.Refs[i.nameMap[ref]].Bins) :: forall k in 0..len(i.idx.Refs[i.nameMap[ref]].Bins[a].Chunks) :: wfC(i.idx.Refs[i.nameMap[ref]].Bins[a].Chunks[k])))
+//@   modifies arrays(bgzf.Chunk)
+//@   ensures[C04] @known (has(i.nameMap, ref) && div(beg, 16384) < len(i.idx.Refs[i.nameMap[ref]].Intervals)) ==> result1 == nil
+//@   ensures[C04] @complete result1 == nil ==> (forall cc in 0..len(i.idx.Refs[i.nameMap[ref]].Bins) :: forall k in 0..len(i.idx.Refs[i.nameMap[ref]].Bins[cc].Chunks) ::
+//@       forall j in div(beg, 16384)..len(i.idx.Refs[i.nameMap[ref]].Intervals) ::
+//@       (ovl(i.idx.Refs[i.nameMap[ref]].Bins[cc].Bin, beg, end) &&
+//@        tileHit(i.idx.Refs[i.nameMap[ref]].Intervals, div(beg, 16384), j, beg, end, voff(i.idx.Refs[i.nameMap[ref]].Bins[cc].Chunks[k].End))) ==>
+//@       exists m in 0..len(result0) :: covers(result0[m], i.idx.Refs[i.nameMap[ref]].Bins[cc].Chunks[k]))
